@@ -250,7 +250,9 @@ def _parse_out_default_and_doc(
                 "str": str,
             }[typ](lit)
         )
-    elif default.isdecimal():
+    elif default.isdecimal() or (
+        default[:1] in frozenset(("-", "+")) and default[1:].isdecimal()
+    ):
         default = int(default)
     elif default in frozenset(("True", "False")):
         default = literal_eval(default)
